@@ -113,3 +113,56 @@ Theorem c05_code_quick_add_tag : forall m rho c r,
 Proof. exact code_quick_add_tag. Qed.
 Print Assumptions c05_code_quick_add_tag.
 
+(* ---- libwifi_check_tag and libwifi_remove_tag AS TRANSLATED, the tag iterator's two routines inlined at their call sites (Gen/Sites.v: SInline), for EVERY byte list placed anywhere
+   with only the list readable: the whole do-while walk (induction on the model's walk) never gets stuck and returns what Model/Tags.v returns - the count of elements with that number
+   (which cannot overflow the int counter: at most half the length), or for removal: nothing touched when the number is absent, otherwise ONE memmove closing the gap of the FIRST such
+   element, then free (list empty) or realloc (a failed shrink keeps the old block and is not an error), the recorded length reduced by the element's size.  walk_of, remove_trace,
+   new_params are defined in Proofs/CodeTagEdit.v. ---- *)
+From Coq Require Import String.
+From LW Require Import Base.Bytes Base.CExpr Gen.Sites Spec.CodeSpec Model.TagIter Model.Tags Proofs.CodeTagEdit.
+Local Open Scope string_scope.
+Local Open Scope list_scope.
+Local Open Scope Z_scope.
+
+Theorem c05_code_check_tag_refines_model : forall buf p n rho F,
+  wfbytes buf -> zlen buf < 2 ^ 31 -> 0 < p -> p + zlen buf < 2 ^ 62 -> - 2 ^ 31 <= n < 2 ^ 31 ->
+  rho "tags->parameters" = p -> rho "tags->length" = zlen buf -> rho "tag_number" = n ->
+  (check_fuel (zlen buf) <= F)%nat ->
+  exists v,
+    check_tag {| t_len := zlen buf; t_bytes := buf |} n = Done v /\
+    v = match walk_of buf with Err _ => -22 | Ok l => zlen (filter (fun e => e_num e =? n) l) end /\
+    -22 <= v /\ 2 * v <= zlen buf /\
+    observe (exec F (mem_at p buf) rho [] body_libwifi_check_tag) = Some (Some v, []).
+Proof. exact code_check_tag_refines_model. Qed.
+Print Assumptions c05_code_check_tag_refines_model.
+
+Theorem c05_code_remove_tag_refines_model : forall buf p n rho F,
+  wfbytes buf -> 0 < p -> p + zlen buf < 2 ^ 62 -> - 2 ^ 31 <= n < 2 ^ 31 ->
+  rho "tags->parameters" = p -> rho "tags->length" = zlen buf -> rho "tag_number" = n ->
+  (remove_fuel (zlen buf) <= F)%nat ->
+  let s := {| t_len := zlen buf; t_bytes := buf |} in
+  let run := exec F (mem_at p buf) rho [] body_libwifi_remove_tag in
+  let ans := wrap u64 (rho "ret:realloc") in
+  match walk_of buf with
+  | Err _ =>
+      remove_tag s n = Done (s, -22) /\
+      exists rho', run = Returned (Some (-22)) rho' [] /\ rho' "tags->length" = zlen buf /\ rho' "tags->parameters" = p
+  | Ok l =>
+      match find_num n l with
+      | None =>
+          remove_tag s n = Done (s, 0) /\
+          exists rho', run = Returned (Some 0) rho' [] /\ rho' "tags->length" = zlen buf /\ rho' "tags->parameters" = p
+      | Some e =>
+          let o := e_off e in let L := e_len e in
+          (e_num e = n /\ exists l1 l2, l = l1 ++ e :: l2 /\ Forall (fun x => e_num x <> n) l1) /\
+          (0 <= o /\ o + 2 + L <= zlen buf /\ n = znth buf o /\ L = znth buf (o + 1) /\ 0 <= L < 256) /\
+          (exists s', remove_tag s n = Done (s', 0) /\ t_len s' = zlen buf - 2 - L /\
+                      t_bytes s' = zfirstn o buf ++ slice (o + 2 + L) (zlen buf - o - 2 - L) buf) /\
+          exists rho', run = Returned (Some 0) rho' (remove_trace p o L (zlen buf)) /\
+                       rho' "tags->length" = zlen buf - 2 - L /\
+                       rho' "tags->parameters" = new_params p ans (zlen buf - 2 - L)
+      end
+  end.
+Proof. exact code_remove_tag_refines_model. Qed.
+Print Assumptions c05_code_remove_tag_refines_model.
+
